@@ -29,6 +29,7 @@ struct Case {
     epochs: i32,
     wseed: u32,
     dseed: u32,
+    fitted: bool,
 }
 
 fn decode(tape: &[u32]) -> Case {
@@ -40,9 +41,18 @@ fn decode(tape: &[u32]) -> Case {
         spec.layers.push(LayerSpec::Dense { out: t.usize(1, 4), act: ActK::Sigmoid, bias: t.bool(), dropout: None });
     }
     let kind = gen_optimizer(&mut t);
-    let n = t.usize(1, 12);
-    let batch = t.usize(1, n + 3);
-    Case { spec, kind, obj, n, batch, epochs: t.usize(1, 4) as i32, wseed: t.raw(), dseed: t.raw() }
+    let (n, batch) = if t.chance(1, 8) {
+        // groups larger than the library's internal parallel chunk size (64)
+        let n = t.usize(65, 140);
+        (n, t.usize(60, n + 3))
+    } else {
+        let n = t.usize(1, 12);
+        (n, t.usize(1, n + 3))
+    };
+    // "fitted" data: the targets of the first group equal the initial predictions bit for bit
+    // (loss exactly 0, zero gradient): one optimizer step per group must still happen
+    let fitted = t.chance(1, 6);
+    Case { spec, kind, obj, n, batch, epochs: t.usize(1, 4) as i32, wseed: t.raw(), dseed: t.raw(), fitted }
 }
 
 /// The optimizer's slot layout, as `Network::set_optimizer` builds it (layers in reverse order).
@@ -89,6 +99,12 @@ fn check(case: &Case, ev: &mut CaseEv) -> CheckResult {
             tens::build(&out_dims, &v)
         })
         .collect();
+    let ys: Vec<Tensor> = if case.fitted {
+        ev.class("first group fitted exactly (zero loss)");
+        ys.iter().enumerate().map(|(i, y)| if i < case.batch { net.predict(&xs[i]) } else { y.clone() }).collect()
+    } else {
+        ys
+    };
     let (xr, yr): (Vec<&Tensor>, Vec<&Tensor>) = (xs.iter().collect(), ys.iter().collect());
 
     // --- library
@@ -199,7 +215,7 @@ impl Prop for C04 {
         Some(3)
     }
     fn rule(&self) -> String {
-        "tape-decoded training run: 1-3-layer network (dense, convolution, deconvolution, max-pool mixes, no dropout), one of five optimizers with option variants, one of seven objectives (sigmoid head for the probability objectives), N = 1..12 distinct samples, B = 1..N+3 (B = 1, B not dividing N, B > N all occur), E = 1..4 epochs, known start weights. Oracle: replayed reference trainer (groups of B in order, per-sample gradients at the pre-step weights from a never-trained second instance, summed in order, one step of a separately constructed optimizer with step number = epoch, loss = mean over groups of mean per-sample loss); final weights and the loss vector must agree within 1e-4 relative / 1e-6 absolute (bit-identical today). Non-trivial: >= 2 groups, B >= 2 and (B does not divide N or E >= 2). Distinct = (architecture, N, B, E, optimizer, objective).".into()
+        "tape-decoded training run: 1-3-layer network (dense, convolution, deconvolution, max-pool mixes, no dropout), one of five optimizers with option variants, one of seven objectives (sigmoid head for the probability objectives), N = 1..12 distinct samples (1/8 of the cases: N = 65..140 with B >= 60, i.e. groups beyond the internal 64-sample chunk), B = 1..N+3 (B = 1, B not dividing N, B > N all occur), in 1/6 of the cases the first group's targets equal the initial predictions bit for bit (zero loss and gradient), E = 1..4 epochs, known start weights. Oracle: replayed reference trainer (groups of B in order, per-sample gradients at the pre-step weights from a never-trained second instance, summed in order, one step of a separately constructed optimizer with step number = epoch, loss = mean over groups of mean per-sample loss); final weights and the loss vector must agree within 1e-4 relative / 1e-6 absolute (bit-identical today). Non-trivial: >= 2 groups, B >= 2 and (B does not divide N or E >= 2). Distinct = (architecture, N, B, E, optimizer, objective).".into()
     }
     fn run_case(&self, tape: &[u32], ev: &mut CaseEv) -> CheckResult {
         check(&decode(tape), ev)
